@@ -412,6 +412,10 @@ func checkLaneBitIsOneBit(c *core.Ctx) {
 						}
 						continue
 					}
+					if carryOfBitsArith(shl.X) {
+						st.Ob(true)
+						continue
+					}
 					r := uRangeOf(shl.X, 0, nil)
 					if r.hi.Cmp(big.NewInt(1)) <= 0 {
 						st.Ob(true)
@@ -467,4 +471,22 @@ func stripWidening(c *core.Ctx, v ssa.Value) ssa.Value {
 		}
 		v = cv.X
 	}
+}
+
+// carryOfBitsArith: the second result of math/bits.Add* / Sub* (a carry or borrow: 0 or 1),
+// conversions aside.
+func carryOfBitsArith(v ssa.Value) bool {
+	ex, ok := core.StripConv(v).(*ssa.Extract)
+	if !ok || ex.Index != 1 {
+		return false
+	}
+	call, ok := ex.Tuple.(*ssa.Call)
+	if !ok {
+		return false
+	}
+	f := core.CalleeFunc(call)
+	if f == nil || f.Pkg() == nil || f.Pkg().Path() != "math/bits" {
+		return false
+	}
+	return strings.HasPrefix(f.Name(), "Add") || strings.HasPrefix(f.Name(), "Sub")
 }
